@@ -256,7 +256,9 @@ def run(ctx: lib.Ctx) -> None:
                 textual(3, False, chex(d), body_of(kind, h), ok3, u, ('unforge_contract', d.hex()))
                 if ep == '':
                     continue
-                if not ok2 or back != v.value:
+                # the value denoted by the string: only an entrypoint that is exactly "default" is elided
+                denoted = text if ep in (None, 'default') else value
+                if not ok2 or back != v.value or back != denoted:
                     if ep is not None and ep == '':
                         continue
                     report('a value with' + ('out' if ep is None else '') + ' entrypoint does not survive the optimized form',
